@@ -101,11 +101,14 @@ def signature(F, cat, b):
             if f is None and e.tag == ("Push", "push"):
                 continue  # an arm forwarding to another form (R-FORWARD)
             sig.add((f or "self", e.cls))
-    rets = [tree(ctx, o) for o in ctx.org.local(0)]
+    from expr import ret_alts, nobb, NONE
+    rets = [nobb(t) for t in ret_alts(ctx) if t != NONE]
     kinds = set()
     for t in rets:
-        if t[0] == "agg" and t[1] == "tuple" and all(x[0] == "call" and x[1][1] == "len" for x in t[2]) and t[2]:
+        if t[0] == "agg" and t[1] == "tuple" and t[2] and all(x[0] == "call" and x[1][1] == "len" for x in t[2]):
             kinds.add("bracket")
+        elif t[0] == "agg" and t[1] == "tuple" and len(t[2]) == 2 and t[2][0] == t[2][1] and t[2][0][0] == "place":
+            kinds.add("bits")
         elif t[0] == "bin":
             kinds.add("position")
         elif t[0] == "call" and t[1] == ("Push", "push") and t[2] and t[2][0][0] == "place" and \
@@ -115,6 +118,8 @@ def signature(F, cat, b):
             kinds.add("bits")
         elif t[0] == "call" and t[1] == ("Push", "push"):
             kinds.add("child:" + ".".join(t[2][0][3]) if t[2] and t[2][0][0] == "place" else "child")
+        elif t[0] == "call" and t[1][1] == "len":
+            kinds.add("position")
         elif t[0] == "agg":
             kinds.add("agg:" + t[1])
         elif t[0] == "place":
